@@ -93,16 +93,17 @@ def run(ctx):
                         canon=False, emit=True)
     insts2 += more
     if not q:
-        _, more = bp.io_run(ctx, "c10_d", NS=2, NI=2, G=3, vals=(0, 1), min_kids=1, emit=True)
+        _, more = bp.io_run(ctx, "c10_d", NS=1, NI=2, G=3, vals=(0, 1), min_kids=1, emit=True)
         insts += more
         for ns, ni in ((2, 1), (3, 1), (4, 1), (3, 2), (4, 3)):
             _, more = bp.io_run(ctx, f"c10_e{ns}{ni}", NS=ns, NI=ni, G=3, vals=(0, 1, 2), mode="hash",
                                 seeds=range(1, 25), canon=False, emit=True)
             insts2 += more
+    bp.tick(ctx, "tlc")
     proper = [i for i in insts if i["status"] == "done"]
     ctx.count("instances_emitted", len(insts) + len(insts2))
     ctx.count("improper_instances_emitted", len(insts) - len(proper) + sum(1 for i in insts2 if i["status"] != "done"))
-    cap = 500 if q else 12000
+    cap = 2000 if q else 20000
     ctx.exhaustive = len(proper) <= cap
     if len(proper) > cap:
         proper = ctx.rng.sample(proper, cap)
@@ -115,9 +116,14 @@ def run(ctx):
             todo.append(i)
     for inst in todo:
         bp.mirror_sync_io(ctx, inst)
+    bp.tick(ctx, "mirror_sync")
+    bp.tsd()
+    bp.tick(ctx, "import_tsdate")
     for inst in todo:
         replay_double(ctx, inst)
+    bp.tick(ctx, "replay_doubles")
     poisson_cases(ctx, 20 if q else 300)
+    bp.tick(ctx, "poisson_cases")
 
 
 def replay(ctx, body):
